@@ -270,6 +270,29 @@ def op_doc_two_default_phrasings(d):
     return "\n".join(out)
 
 
+# descriptions without a declared type whose first sentence lists alternative types, some of the words naming the same type (filename/path/string,
+# integer/number): the inferred type is a function of the text only
+DOC_TYPE_WORDS = [
+    "Summary.\n\n:param source: Filename, path, float or int.\n",
+    "Summary.\n\n:param scale: Integer, float or number.\n:param flag: Boolean, string or path\n",
+    "Summary.\n\nArgs:\n  source: String, filename, integer or boolean to use.\n  other: Float or int.\n",
+    "Summary.\n\nParameters\n----------\nsource\n    Path, string, number or float.\n",
+]
+
+
+def op_doc_types_from_prose(d):
+    import cdd.docstring.parse
+
+    out = []
+    for doc in DOC_TYPE_WORDS:
+        for infer_type in (False, True):
+            try:
+                out.append(ir_text(cdd.docstring.parse.docstring(doc, infer_type=infer_type)))
+            except Exception as e:
+                out.append("EXC:" + type(e).__name__)
+    return "\n".join(out)
+
+
 def op_class_merge(d):
     import cdd.class_.parse
 
@@ -507,6 +530,7 @@ OPS = OrderedDict(
         ("fn_google_subset", op_fn_google_subset),
         ("fn_posonly_and_stray", op_fn_posonly_and_stray),
         ("doc_two_default_phrasings", op_doc_two_default_phrasings),
+        ("doc_types_from_prose", op_doc_types_from_prose),
         ("class_merge", op_class_merge),
         ("emit_docstring", op_emit_docstring),
         ("emit_class", op_emit_class),
